@@ -16,9 +16,9 @@ vars == <<prog, val>>
 \* ------------------------------------------------------------- seed universe
 \* coefficient vectors per term (0 included so that zero terms and cancellation occur)
 CoefVecs(n) ==
-  IF n = 1 THEN (IF Universe = "quick" THEN {<<-1>>, <<2>>} ELSE {<<-2>>, <<-1>>, <<0>>, <<1>>, <<2>>})
+  IF n = 1 THEN (IF Universe = "quick" THEN {<<-1>>, <<2>>} ELSE {<<-2>>, <<0>>, <<1>>})
   ELSE IF n = 2 THEN (IF Universe = "quick" THEN {<<1, -1>>, <<0, 2>>}
-                      ELSE {<<1, -1>>, <<0, 2>>, <<2, 0>>, <<-1, -1>>, <<0, 0>>})
+                      ELSE {<<1, -1>>, <<0, 2>>, <<-1, 0>>})
   ELSE {[k \in 1..n |-> 1], [k \in 1..n |-> IF k = 1 THEN -1 ELSE 0]}
 \* (names, rows) layouts: one or two indeterminates, up to two terms
 Layouts ==
@@ -27,7 +27,7 @@ Layouts ==
     [names |-> <<1>>, rows |-> <<<<1>>>>], [names |-> <<1>>, rows |-> <<<<0>>, <<2>>>>],
     [names |-> <<0, 1>>, rows |-> <<<<1, 1>>>>], [names |-> <<0, 1>>, rows |-> <<<<1, 0>>, <<0, 1>>>>],
     [names |-> <<0, 2>>, rows |-> <<<<0, 0>>, <<1, 2>>>>] }
-SeedShapes == IF Universe = "quick" THEN {<<>>, <<2>>} ELSE {<<>>, <<2>>, <<1, 2>>, <<2, 1>>}
+SeedShapes == IF Universe = "quick" THEN {<<>>, <<2>>} ELSE {<<>>, <<2>>, <<2, 1>>}
 Seeds ==
   UNION { { [kind |-> "poly", shape |-> s, names |-> lay.names, rows |-> lay.rows, coefs |-> c] :
               c \in [1..Len(lay.rows) -> CoefVecs(Size(s))] } :
